@@ -221,6 +221,70 @@ func (e *env) reusedStruct() {
 	}
 }
 
+// reusedStructOther: ONE struct variable is the destination of consecutive Take / First / Find calls
+// for DIFFERENT records (the loop variable declared outside of the loop). Before every read the key
+// fields of the variable are reset to their zero value (a non-zero key in the destination is a query
+// condition for gorm). Every field whose column holds a value in the row just read must then equal
+// what Create stored - whatever the field held before: a serialized struct whose members were zero in
+// the new record, a map with other keys, a longer slice, a non-nil pointer. Fields whose column is
+// NULL in the row are not looked at (gorm leaves such a field as it is, see Assumptions).
+func (e *env) reusedStructOther() {
+	var recs []*rec
+	for _, rc := range e.keyed(6) {
+		if rc.null != nil {
+			recs = append(recs, rc)
+		}
+	}
+	if len(recs) < 2 {
+		return
+	}
+	where := e.pkWhere()
+	var pkNames []string
+	for _, l := range e.m.pks {
+		pkNames = append(pkNames, "t."+l.name())
+	}
+	e.op("var t T; for key in [%s] { %s = <zero>; %s.Where(%q, key...).Take|First|Find(&t) }   // ONE struct for all reads", keyList(recs), strings.Join(pkNames, ", "), e.recv(), where)
+	out := reflect.New(e.m.typ)
+	for i, rc := range recs {
+		for _, l := range e.m.pks {
+			setLeaf(out, l, reflect.Zero(l.typ))
+		}
+		fin := []string{"Take", "First", "Find"}[(i+e.readRot)%3]
+		var res *gorm.DB
+		switch fin {
+		case "Take":
+			res = e.tx().Where(where, rc.pkArgs...).Take(out.Interface())
+		case "First":
+			res = e.tx().Where(where, rc.pkArgs...).First(out.Interface())
+		default:
+			res = e.tx().Where(where, rc.pkArgs...).Find(out.Interface())
+		}
+		how := fmt.Sprintf("%s.Where(%q, %v).%s(&t) [read %d into the same struct, key fields zeroed before the call]", e.recv(), where, rc.pkArgs, fin, i+1)
+		if res.Error != nil {
+			e.problem("read-reused-struct-other/error", "%s: %v", how, res.Error)
+			continue
+		}
+		for _, l := range e.m.leaves {
+			x := rc.exp[l.ord]
+			if !x.set || x.any {
+				continue
+			}
+			if rc.null[l.ord] {
+				e.c.Inc("reused_struct_other_null_columns_skipped")
+				continue
+			}
+			if got := canonGo(l, getLeaf(out.Elem(), l)); got != x.canon {
+				e.problem("read-reused-struct-other/"+l.kindName(), "%s: record %d field %s = %s, Create stored %s (the column holds a value)", how, rc.idx, l.name(), clip(got), clip(x.canon))
+			}
+			e.c.Inc("fields_compared_reused_struct_other")
+		}
+		e.c.Inc("reused_struct_other_reads")
+	}
+	if !e.callBad {
+		e.c.Shape(e.fs, e.opt, "reused-struct-other")
+	}
+}
+
 // reusedSlice: Find into a slice that already holds the result of an earlier Find (other order, so
 // that every position held a different record).
 func (e *env) reusedSlice(ptrs bool, byPayload map[string]*rec) {
@@ -295,6 +359,7 @@ func (e *env) reuseRound(byPayload map[string]*rec) {
 	if on(1) {
 		e.reusedStruct()
 	}
+	e.reusedStructOther()
 	if on(0) {
 		e.scanRowsLoop("map", byPayload)
 	}
